@@ -77,10 +77,14 @@ pub fn mon_c04(f: &Flow, setup: &Setup, m: &mut Mon) {
         let e = &c.exp;
         // first event is CheckingForUpdates by segmentation; exactly one result closes the check
         let n = c.events.len();
+        // "preceded by the final schedule and protocol state": both, directly before the result; the statement
+        // fixes no order between the two
         let tail_ok = n >= 4
-            && matches!(c.events[n - 3].1, EvSnap::Schedule(_))
-            && matches!(c.events[n - 2].1, EvSnap::Proto(_))
-            && matches!(c.events[n - 1].1, EvSnap::Result(_));
+            && matches!(c.events[n - 1].1, EvSnap::Result(_))
+            && matches!(
+                (&c.events[n - 3].1, &c.events[n - 2].1),
+                (EvSnap::Schedule(_), EvSnap::Proto(_)) | (EvSnap::Proto(_), EvSnap::Schedule(_))
+            );
         m.judge("c04-final-schedule-protocol-result", tail_ok, &lab, || {
             format!("check #{}: last events {:?}", c.idx, c.events.iter().rev().take(4).map(|x| short(&x.1)).collect::<Vec<_>>())
         });
